@@ -228,6 +228,34 @@ pub fn sym(args: &[String]) {
             }
         }
     }
+    // ---- spans of a few ulps next to x0 = 1 and x0 = 1000 (the spacing of doubles differs above and below a power of two): the
+    // step-size guards of the reflected run must decide as those of the run (user Jacobian for the implicit methods)
+    {
+        let mut k = 0;
+        for method in ALL_METHODS {
+            for (x0, ulps) in [(1.0f64, 4.0f64), (1.0, -4.0), (1.0, 40.0), (1024.0, 6.0), (1024.0, -6.0), (-1.0, 4.0)] {
+                let xend = x0 + ulps * f64::EPSILON * x0.abs();
+                let run = |reflect: bool| {
+                    let p = SlowT { reflect };
+                    let (a, b) = if reflect { (-x0, -xend) } else { (x0, xend) };
+                    catch_unwind(AssertUnwindSafe(|| solve_ivp(&p, a, b, &[1.0, 1.0], Options::builder().method(method).rtol(1e-6).atol(1e-9).build())))
+                };
+                let mut why = String::new();
+                match (run(false), run(true)) {
+                    (Ok(Ok(r0)), Ok(Ok(r))) => {
+                        let tm: Vec<f64> = r.t.iter().map(|t| -t).collect();
+                        if r.status != r0.status { why = format!("span of {} ulps at x0 = {}: reflected run ends {:?}, original {:?}", ulps, x0, r.status, r0.status); }
+                        else if tm.len() != r0.t.len() || tm.iter().zip(r0.t.iter()).any(|(u, v)| u != v) { why = format!("reflected run has different step points ({} vs {} samples)", r.t.len(), r0.t.len()); }
+                        else if r.y.iter().zip(r0.y.iter()).any(|(a, b)| !bits_eq(a, b)) { why = "reflected run has different states at the mirrored times".into(); }
+                    }
+                    (Ok(Err(_)), Ok(Err(_))) => {}
+                    _ => why = "one of the two runs fails".into(),
+                }
+                row("sy", 510000 + k, "reflect-ulp-span", Kind::Slow, method, "c13-reflect", &why, &format!("\"x0\":{},\"ulps\":{},", x0, ulps));
+                k += 1;
+            }
+        }
+    }
 }
 
 // ------------------------------------------------------------------------------------------------------------ C15
